@@ -1431,6 +1431,21 @@ def codec_boundaries(run):
             for k in counts:
                 cases.append(('str:%d-chars-of-U+%04X' % (k, ord(ch)), ch * k, ch * k))
         cases.append(('nested', {'k': [1, {'z': (2, 3)}, b'b'], 5: None}, {'k': [1, {'z': (2, 3)}, b'b'], 5: None}))
+        # instances of subclasses of the serialisable types are packed as their base type
+        import collections as _c
+        import enum as _e
+        _P = _c.namedtuple('_P', 'x y')
+        _S = type('_S', (str,), {})
+        _B = type('_B', (bytes,), {})
+        _L = type('_L', (list,), {})
+        _I = type('_I', (int,), {})
+        _F = type('_F', (float,), {})
+        _E = _e.IntEnum('_E', 'A B')
+        for label, v, base in (('subclass:namedtuple', _P(1, 2), [1, 2]), ('subclass:OrderedDict', _c.OrderedDict([('a', 1), ('b', 2)]), {'a': 1, 'b': 2}),
+                               ('subclass:defaultdict', _c.defaultdict(int, k=3), {'k': 3}), ('subclass:str', _S('text'), 'text'), ('subclass:bytes', _B(b'raw'), b'raw'),
+                               ('subclass:list', _L([1, 'x']), [1, 'x']), ('subclass:int', _I(300), 300), ('subclass:float', _F(1.5), 1.5),
+                               ('subclass:IntEnum', _E.B, 2), ('subclass:nested', {'k': [_P(_S('a'), _I(7))]}, {'k': [['a', 7]]})):
+            cases.append((label, v, base))
         # array-valued map keys come back hashable at every depth
         for label, v in (('map:tuple-key', {(1, 2): 'v'}), ('map:empty-tuple-key', {(): 1}), ('map:nested-tuple-key', {((1, 2), 3): 'v', (4, (5, (6,))): None}),
                          ('map:tuple-key-in-nested-map', [{'k': {(1, (2, 'a')): [3]}}])):
